@@ -26,6 +26,27 @@ LBR = "grep_searcher::line_buffer::LineBufferReader"
 SCFG = "grep_searcher::searcher::Config"
 
 
+
+def clear_rule(ctx, r):
+    """A reused line buffer starts every search from zero (shared by C02.REFILL and C03.CLEAR)."""
+    facts = ctx.facts
+    LB = "grep_searcher::line_buffer::LineBuffer"
+    LBR = "grep_searcher::line_buffer::LineBufferReader"
+    g = facts.fn(LBR + "::new")
+    if g.calls_to(LB + "::clear"):
+        r.ok("reader|clear", "LineBufferReader::new clears the shared buffer", fn=g)
+    else:
+        r.bad("reader|clear", "LineBufferReader::new does not clear the buffer: state of a previous search leaks", fn=g,
+              construct="clear")
+    h = facts.fn(LB + "::clear")
+    _, w, _ = field_rw(h)
+    need = {"pos", "last_lineterm", "end", "absolute_byte_offset", "binary_byte_offset"}
+    got = {fl for o, fl in w if o == LB}
+    if need <= got:
+        r.ok("clear|fields", "clear resets %s" % sorted(need), fn=h)
+    else:
+        r.bad("clear|fields", "LineBuffer::clear does not reset %s" % sorted(need - got), fn=h, construct="clear")
+
 def run(ctx):
     facts = ctx.facts
     with ctx.rule("C02.GATE", "one strategy predicate; every strategy run site enumerated; line strategies behind check_config", floor=12, kind="GUARD/PARITY") as r:
@@ -322,20 +343,7 @@ def run(ctx):
         else:
             r.bad("lb-fill-window", "LineBuffer::fill no longer maintains end / last_lineterm from the bytes read and the last terminator", fn=fl_,
                   construct="fill")
-        g = facts.fn(LBR + "::new")
-        if g.calls_to(LB + "::clear"):
-            r.ok("reader|clear", "LineBufferReader::new clears the shared buffer", fn=g)
-        else:
-            r.bad("reader|clear", "LineBufferReader::new does not clear the buffer: state of a previous search leaks", fn=g,
-                  construct="clear")
-        h = facts.fn(LB + "::clear")
-        _, w, _ = field_rw(h)
-        need = {"pos", "last_lineterm", "end", "absolute_byte_offset", "binary_byte_offset"}
-        got = {fl for o, fl in w if o == LB}
-        if need <= got:
-            r.ok("clear|fields", "clear resets %s" % sorted(need), fn=h)
-        else:
-            r.bad("clear|fields", "LineBuffer::clear does not reset %s" % sorted(need - got), fn=h, construct="clear")
+        clear_rule(ctx, r)
 
     with ctx.rule("C02.STOPNM", "the fast inverted scanner cannot step over the stopping line (buffer-boundary dependent otherwise; shared with C03.STOPNM)",
                   floor=1, kind="GUARD") as r:
